@@ -103,7 +103,7 @@ def direct_traces(rng, quick=True):
 # ---- engine-level ------------------------------------------------------------------------
 
 def engine_traces(cls, listing, other_listing, diag, seed=0, chains=2, slow=(8, 10), companion="mm", tail_posterior=True,
-                  stepwise=False):
+                  stepwise=False, fast=4, tail_fast=0):
     """tail_posterior=False: the schedule ends with the last slow-adaptation epoch; stepwise: the epochs are appended and
     sampled one at a time (every epoch is the last configured one when it ends)."""
     """A real engine with two mass-matrix kernels over non-alphabetical keys; after each
@@ -127,8 +127,12 @@ def engine_traces(cls, listing, other_listing, diag, seed=0, chains=2, slow=(8, 
         k2 = gs.RWKernel(list(other_listing), initial_step_size=0.5)
     b.add_kernel(k1)
     b.add_kernel(k2)
-    cfgs = [EpochConfig(EpochType.INITIAL_VALUES, 1, 1, None), EpochConfig(EpochType.FAST_ADAPTATION, 4, 1, None)]
+    # fast: duration of the first fast-adaptation epoch (equal to a slow epoch's duration: the tuning calls of the two
+    # see histories of the same shape); tail_fast: a further fast-adaptation epoch after the slow ones
+    cfgs = [EpochConfig(EpochType.INITIAL_VALUES, 1, 1, None), EpochConfig(EpochType.FAST_ADAPTATION, fast, 1, None)]
     cfgs += [EpochConfig(EpochType.SLOW_ADAPTATION, d, 1, None) for d in slow]
+    if tail_fast:
+        cfgs += [EpochConfig(EpochType.FAST_ADAPTATION, tail_fast, 1, None)]
     if tail_posterior:
         cfgs += [EpochConfig(EpochType.POSTERIOR, 4, 1, None)]
     # (stepwise: the builder needs one real epoch for its chunk length - with the initial epoch alone it is 0 and a
@@ -160,9 +164,15 @@ def engine_traces(cls, listing, other_listing, diag, seed=0, chains=2, slow=(8, 
         for c in range(chains):
             ev = []
             for ei, cfg in enumerate(cfgs):
+                lo, hi = int(starts[ei]), int(starts[ei + 1])  # sample indices of this epoch
+                if cfg.type == EpochType.FAST_ADAPTATION and ei > 1:
+                    # a fast-adaptation epoch after the matrix was tuned: the matrix in force at its first transition and
+                    # the one in force afterwards
+                    after = imm_all[c, hi] if hi < imm_all.shape[1] else np.asarray(eng._kernel_states[ki].inverse_mass_matrix)[c]
+                    fm = lambda m: [f32s(v) for v in np.ravel(m)]  # noqa: E731
+                    ev.append({"ev": "fast_keep", "epoch": ei, "before": fm(imm_all[c, lo]), "after": fm(after)})
                 if cfg.type != EpochType.SLOW_ADAPTATION:
                     continue
-                lo, hi = int(starts[ei]), int(starts[ei + 1])  # sample indices of this epoch
                 cols = {}
                 for n in lst:
                     arr = np.asarray(samples[n])[c, lo:hi].reshape(hi - lo, -1)
